@@ -411,6 +411,15 @@ def verify_unit(unit, workdir, tier='quick'):
         res['undecided'] = 'extraction drift: %s' % e
         return res
     res.update(extract=b['infos'], rules_fired=b['fired'], replaced=b['replace'], cfile=b['cfile'])
+    try:      # mechanical scan: every assume in the text handed to the verifier (contracts, models, harness) is an assumption, never proof
+        txt = open(b['cfile']).read()
+        inc = re.findall(r'#include "([^"]+)"', txt)
+        for h in inc:
+            hp = os.path.join(CONTRACTS, h)
+            if os.path.exists(hp): txt += '\n' + open(hp).read()
+        res['assume_statements'] = sorted(set(re.sub(r'\s+', ' ', m)[:160] for m in re.findall(r'__CPROVER_assume\s*\([^;]*;', txt)))
+    except OSError:
+        res['assume_statements'] = None
     timeout = unit.timeout or (180 if tier == 'quick' else 900)
     defs = ['-D' + d for d in unit.defines] + ['-DCBMC_VERIF']
     if tier == 'thorough': defs.append('-DTHOROUGH')
